@@ -59,6 +59,9 @@ func checkC10(c c10Case) string {
 	copy(grown, b.sub.Items)
 	b.sub.Items = grown
 	b.sub.Fragment(time.Duration(c.F))
+	if m := b.metaDiff(); m != "" {
+		return m
+	}
 	if c.Again {
 		// second round on the same value: shift (positive: nothing is clamped or removed), then fragment again
 		b.sub.Add(time.Duration(c.ShiftD))
@@ -241,6 +244,7 @@ func gridAlphabet(max int64, texts []string, unit int64) []cueSpec {
 
 func TestC10(t *testing.T) {
 	runWitnesses(t, "C10")
+	cliCases(t, "C10", "fragment")
 
 	grid := func(name string, maxN int, max int64) {
 		sub(t, name, func(t *testing.T) {
